@@ -59,8 +59,8 @@ WATCHDOG = {"quick": 1200, "thorough": 7200}
 EXC_NAMES = ["ValueError", "KeyError", "Custom", "ExceptionGroup", "NestedGroupWithClientClosed", "ConnectionResetError", "BrokenPipeError", "ClientClosedError", "TimeoutError", "ReRaisedParseError", "RuntimeErrorCrashed"]
 TCP_POSITIONS = ["on_connection", "on_connection_gen_before", "on_connection_gen_after", "handle_before_yield", "handle_after_1", "handle_after_2", "handle_in_parse_error", "handle_in_timeout", "on_disconnection"]
 UDP_POSITIONS = ["handle_before_yield", "handle_after_1", "handle_after_2", "handle_in_parse_error", "handle_in_timeout"]
-SETUP_FAULTS_TCP = ["rst-after-accept", "half-open"]
-SETUP_FAULTS_TLS = ["rst-after-accept", "half-open", "tls-garbage", "tls-stalled", "tls-eof-mid-handshake"]
+SETUP_FAULTS_TCP = ["rst-after-accept", "half-open", "rst-after-payload", "rst-after-request"]
+SETUP_FAULTS_TLS = ["rst-after-accept", "half-open", "tls-garbage", "tls-stalled", "tls-eof-mid-handshake", "rst-after-payload"]
 
 
 class Custom(Exception):
@@ -335,6 +335,13 @@ def tcp_scenario(tls: bool, exc: str | None, position: str | None, setup_fault: 
             if setup_fault is not None:
                 res["triggered"] = True
                 if setup_fault == "rst-after-accept":
+                    s.setsockopt(socket.SOL_SOCKET, socket.SO_LINGER, struct.pack("ii", 1, 0))
+                    s.close()
+                    return
+                if setup_fault in ("rst-after-payload", "rst-after-request"):
+                    # the kernel knows the connection is reset before the event loop has noticed: whatever the server does
+                    # with this connection next (read, write_eof, close) fails with a non-ConnectionError OSError such as ENOTCONN
+                    await lp.sock_sendall(s, b"par" if setup_fault == "rst-after-payload" else b"f:1\n")
                     s.setsockopt(socket.SOL_SOCKET, socket.SO_LINGER, struct.pack("ii", 1, 0))
                     s.close()
                     return
